@@ -64,10 +64,11 @@ class Anchors:
         self.minimal_interval = fn(self.TM, 'minimal_interval')
         lam = [f for f in mod.defined() if f.scope.startswith(self.TM) and '::plan::' in f.scope
                and f.srcname.startswith('operator()')]
-        if len(lam) != 1:
-            raise AnalysisBroken('search predicate (lambda) of %s::plan not found: %d candidates'
-                                 % (self.TM, len(lam)))
-        self.lam = lam[0]
+        if len(lam) > 1:
+            raise AnalysisBroken('search predicate (lambda) of %s::plan is ambiguous: %d candidates' % (self.TM, len(lam)))
+        # the insertion search may also be written as an explicit loop; then there is no predicate function to look at
+        # and the sort order is decided by the R-PLAN scenarios alone (which decide it in either form)
+        self.lam = lam[0] if lam else None
         self.first = fn(self.DL, 'first')
         self.th_struct = tyname(self.check.params[0]['ty']['elem'])
         self.tm_struct = tyname(self.exec_.params[0]['ty']['elem'])
@@ -547,6 +548,8 @@ def dueform_rule(rep, name, f, now_arg, off_start, off_interval, signed, mod):
 def sortkey_rule(rep, A):
     R = 'R-SORTKEY'
     f = A.lam
+    if f is None:
+        return False
     name = A.nm(f)
     where = '%s:%d' % (f.file, f.line)
     cmps = [i for i in f.all_insts() if i.op == 'icmp']
@@ -1324,12 +1327,32 @@ def run(rep, repo, tier):
         'minimal_interval is called on a non-empty list',
         'callbacks are modelled as: no effect / unplan own timer / unplan another timer',
         'member_offset(&T::m) equals the Itanium data-member-pointer value (shape-checked on the IR)']
-    mod = witness('w_c16_timer.cpp', repo)
+    known = {'is_planned', 'unplan', 'finish', 'check', 'set_start', 'set_interval', 'shift', 'execute', 'plan', 'exec',
+             'empty', 'minimal_interval', 'timer_head_basic', '~timer_head_basic', 'timer_basic', '~timer_basic',
+             'timer_manager_basic', '~timer_manager_basic', 'operator()', 'start', 'interval'}
+
+    def keep(name, dem, internal, in_main):
+        # members of timer_head_basic / timer_manager_basic that no rule knows (helpers introduced by refactoring, e.g. a
+        # private rearm()) are folded into their callers; everything else stays a function
+        head = dem.split('(')[0]
+        if head.startswith('igris::timer_manager_basic<') or head.startswith('igris::timer_head_basic<'):
+            depth, last = 0, 0
+            for k, ch in enumerate(head):
+                depth += {'<': 1, '>': -1}.get(ch, 0)
+                if ch == ':' and depth == 0:
+                    last = k + 1
+            base = head[last:].split('<')[0]
+            scope = head[:last]
+            if scope.count('::') and '{lambda' not in head and '::plan::' not in head and base not in known:
+                return False
+        return True
+    mod = witness('w_c16_timer.cpp', repo, inline=keep)
     rep.units.append('witness/w_c16_timer.cpp -> igris/time/timer_manager.h, igris/container/dlist.h, dlist.cpp, '
                      'igris/sync/syslock.h, igris/util/memberxx.h')
     rep.units.append('witness/w_c16_private.cpp (-fsyntax-only) -> igris/time/timer_manager.h')
     member_offset_shape(mod)
     nscen = 0
+    have_pred = True
     Scenarios.max_peel, Scenarios.max_latches = 6, 48
     for (tag, targs, W, signed) in INSTANCES:
         A = Anchors(mod, tag, targs, W, signed)
@@ -1337,7 +1360,7 @@ def run(rep, repo, tier):
         who_links(rep, A)
         rearm_rule(rep, A)
         dueform_rule(rep, A.nm(A.check), A.check, 1, A.off_start, A.off_interval, signed, mod)
-        sortkey_rule(rep, A)
+        have_pred = sortkey_rule(rep, A) is not False and have_pred
         accessor_contracts(rep, A)
         nscen += plan_scenarios(rep, A, 5 if tier == 'thorough' else 3)
         nscen += exec_scenarios(rep, A, tier)
@@ -1352,7 +1375,8 @@ def run(rep, repo, tier):
     rep.floor('R-WHOLINKS', 60)
     rep.floor('R-REARM', 20)
     rep.floor('R-DUEFORM', 12)
-    rep.floor('R-SORTKEY', 8)
+    if have_pred:
+        rep.floor('R-SORTKEY', 8)
     rep.floor('R-CLOSEDFORM:post', 30)
     rep.floor('R-PLAN', 50)
     rep.floor('R-EXEC', 40)
